@@ -374,7 +374,7 @@ func (g *FnGen) execBuiltin(s *State, b *ssa.Builtin, com *ssa.CallCommon, res s
 	case "append":
 		g.execAppend(s, com, res)
 	case "copy":
-		panic(genErr("copy not supported yet"))
+		g.execCopy(s, com, res)
 	case "delete":
 		g.execMapDelete(s, com)
 	case "close":
@@ -586,4 +586,21 @@ func (g *FnGen) boundInvoke(s *State, com *ssa.CallCommon, res ssa.Value) bool {
 	g.boundCallees[key] = true
 	g.applyContract(s, fc, tgt, args, res, fn.Signature.Results())
 	return true
+}
+
+func (g *FnGen) execCopy(s *State, com *ssa.CallCommon, res ssa.Value) {
+	dst, src := g.term(s, com.Args[0]), g.term(s, com.Args[1])
+	if g.c.reg.sortOf(com.Args[0].Type()) == "Str" {
+		panic(genErr("copy into a byte slice is not supported (byte slices are immutable values in the model)"))
+	}
+	et := com.Args[0].Type().Underlying().(*types.Slice).Elem()
+	n := g.bind("ncopy", "Int", app("imin", app("s-len", dst), app("s-len", src)))
+	pre := s.clone()
+	if g.fc != nil {
+		g.checkFrameCond(pre, app("s-arr", dst), app(">", n, "0"), et, "append")
+	}
+	g.copyElems(s, pre, app("s-arr", dst), app("s-off", dst), func(idx string) string { return app("elemref", src, app("-", idx, app("s-off", dst))) }, n, et)
+	if res != nil {
+		g.vals[res] = &Val{term: n}
+	}
 }
